@@ -303,9 +303,7 @@ def drive(d, init_pts, T, family, rng=None, nins=0, inserts=None, volume_every_s
         return None
     Tm = np.diag(T) if T is not None else None
     orc = Oracle(d, T)
-    pids = {tuple(p): i for i, p in enumerate(tri.vertices)}
     allpts = [tuple(p) for p in tri.vertices]
-    init_obs = observe(tri, pids)
     init_simplices = sorted(simp(s) for s in tri.simplices)
     for clause, msg in X.structure_errors(tri) + X.tiling_errors(tri):
         orc.err(clause, "initial triangulation: " + msg, -1)
@@ -334,14 +332,11 @@ def drive(d, init_pts, T, family, rng=None, nins=0, inserts=None, volume_every_s
         a = rec.adds[0]
         pid = len(allpts)
         allpts.append(p)
-        if out == "Accepted":
-            pids.setdefault(p, pid)
-            # a duplicate coordinate accepted as a new vertex would map to the old id: keep ids per index
         orc.check_predicates(a, list(tri.vertices) if out == "Accepted" else list(tri.vertices) + [p], k)
         orc.after_step(tri, before, out, ret, k, volume=volume_every_step or k == len(todo) - 1, rec=a)
         steps.append({"pid": pid, "hint": hint, "rec": a, "out": out,
                       "ret": None if ret is None else ({simp(s) for s in ret[0]}, {simp(s) for s in ret[1]}),
-                      "obs": observe_idx(tri, before, pid, out), "kind": kind, "hint_kind": hk,
+                      "obs": observe(tri), "kind": kind, "hint_kind": hk,
                       "path": path_of(a, out)})
         if out not in ("Accepted", "OutsideSimplex", "AlreadyVertex", "InsideHull", "Broken"):
             break
@@ -349,7 +344,7 @@ def drive(d, init_pts, T, family, rng=None, nins=0, inserts=None, volume_every_s
         X.general_position([X.fr_point(p) for p in tri.vertices], orc.TF)
     orc.final(tri, len(steps) - 1, general)
     return {"d": d, "init": [list(p) for p in init_pts], "T": T, "family": family, "inserts": concrete,
-            "steps": steps, "oracle": orc, "init_obs": init_obs, "init_simplices": init_simplices,
+            "steps": steps, "oracle": orc, "init_simplices": init_simplices,
             "n0": len(init_pts), "general": general, "tri": tri}
 
 
@@ -359,21 +354,14 @@ def path_of(a, out):
     return "hull_extension" if a.orient else "interior"
 
 
-def observe(tri, pids):
+def observe(tri):
+    """simplices, index and hull; the vertex list is compared as point ids kept by case_term"""
     try:
         hull = sorted(int(i) for i in tri.hull)
     except RuntimeError:
         hull = None
-    return {"verts": list(range(len(tri.vertices))),
-            "simplices": sorted(simp(s) for s in tri.simplices),
+    return {"simplices": sorted(simp(s) for s in tri.simplices),
             "v2s": [sorted(simp(s) for s in ss) for ss in tri.vertex_to_simplices], "hull": hull}
-
-
-def observe_idx(tri, before, pid, out):
-    """vertex list as point ids: initial vertices are 0..n0-1, an accepted point carries its op's pid"""
-    o = observe(tri, None)
-    o["verts"] = None    # filled by the caller from the pid history
-    return o
 
 
 # ---------------------------------------------------------------------------
